@@ -1,5 +1,6 @@
 import Proofs.Conc.Relay
 import Proofs.Conc.Seq
+import Proofs.Conc.Cache
 /-!
 # C34 — Stored relay evidence stays exact under concurrent relays
 
@@ -94,6 +95,32 @@ theorem within_limit_all_schedules (max : Nat) (ids : List P) (sched : List Labe
 example : withinLimit (run (init 1 [1, 2])
     [.relay 0 .validate, .relay 1 .validate, .relay 0 .get, .relay 0 .add, .relay 0 .set,
      .relay 1 .get, .relay 1 .add, .relay 1 .set]) = true := by decide
+
+/-! ### the evidence store's cache layer (relays one at a time, several sessions) -/
+
+/-- The LRU+DB layer **is observable** in the code as it is: `GetWithoutLock` adds a value read
+from the DB to a full cache with a bare `Cache.Add`, evicting an entry that was never flushed.
+Capacity 1, relays strictly one at a time: session 3's answered relay disappears when session 1
+is read back from the DB, and its replay is answered again (the plain map rejects it). -/
+theorem eviction_is_observable :
+    (SerialCache.run false 2 (SerialCache.init 1) [.relay 1 0, .relay 3 0, .relay 1 0, .relay 3 0]).2
+      = [.ok, .ok, .dup37, .ok] ∧
+    (SerialCache.rrun 2 SerialCache.rinit [.relay 1 0, .relay 3 0, .relay 1 0, .relay 3 0]).2
+      = [.ok, .ok, .dup37, .dup37] := by decide
+
+/-- **With the repaired read path the cache is unobservable**: for every positive capacity, every
+allowance and every sequence of relays, iterator openings and seals, every answer equals the
+plain map's answer and what is stored under every key is what the plain map holds — capacity,
+flushes and evictions cannot be seen. -/
+theorem cache_unobservable_when_repaired (cap max : Nat) (hcap : 0 < cap) (ops : List SerialCache.Op) :
+    (SerialCache.run true max (SerialCache.init cap) ops).2 = (SerialCache.rrun max SerialCache.rinit ops).2 ∧
+    ∀ k, SerialCache.eff (SerialCache.run true max (SerialCache.init cap) ops).1 k =
+      SerialCache.lookup (SerialCache.rrun max SerialCache.rinit ops).1.m k := by
+  obtain ⟨h1, h2⟩ := SerialCache.run_rel max ops _ _ (SerialCache.rel_init cap hcap)
+  exact ⟨h1, h2.map⟩
+
+example : (SerialCache.run true 2 (SerialCache.init 1) [.relay 1 0, .relay 3 0, .relay 1 0, .relay 3 0]).2
+    = [.ok, .ok, .dup37, .dup37] := by decide
 
 /-! ### the repaired design: all schedules -/
 
